@@ -917,7 +917,7 @@ func Run(r *ev.Run) {
 		ts = 4
 	}
 	type item func(r *ev.Run)
-	items := []item{func(r *ev.Run) { runConformance(r) }, func(r *ev.Run) { runIntegrity(r) }}
+	items := []item{func(r *ev.Run) { runConformance(r) }, func(r *ev.Run) { runIntegrity(r); runPortFwdTable(r) }}
 	for sc := 0; sc < 3; sc++ {
 		for k := 0; k < ts; k++ {
 			sc, k := sc, k
@@ -940,6 +940,7 @@ func Run(r *ev.Run) {
 		if n == 1 {
 			runConformance(r)
 			runIntegrity(r)
+			runPortFwdTable(r)
 			runTables(r, -1, 0, 1)
 			runTablesThreeClients(r, 0, 1)
 			runTablesTwoHandshakes(r, 0, 1, false)
